@@ -60,6 +60,13 @@ def build_harness(dest, race=False, pkg="."):
     shutil.copy(os.path.join(REPO, "go.sum"), os.path.join(h, "go.sum"))
     out = os.path.join(dest, "harness_race.test" if race else "harness.test")
     cmd = [GO, "test", "-tags", "verif", "-vet=off", "-c", "-o", out]
+    if os.path.abspath(REPO) != "/repo":
+        # experiments on a scratch copy of the repository (VERIF_REPO): same harness, module replaced by that copy
+        alt = os.path.join(dest, "alt.mod")
+        with open(alt, "w") as f:
+            f.write(open(os.path.join(h, "go.mod")).read().replace("=> /repo", "=> " + os.path.abspath(REPO)))
+        shutil.copy(os.path.join(REPO, "go.sum"), os.path.join(dest, "alt.sum"))
+        cmd += ["-modfile", alt]
     if race:
         cmd.append("-race")
     cmd.append(pkg)
